@@ -103,6 +103,15 @@ def cases(tier, seed):
     if tier == 'quick':
         for t in cm.k2_subset():
             yield ('K', cm.on_carrier([t]))
+    from . import families
+    for m in families.models():
+        if in_fragment(m):
+            yield ('S', m)
+    for m in rt.collision_models():
+        yield ('D', m)
+    for t in families.deep_trees():
+        if True:
+            yield ('K', cm.on_carrier([t]))
     k1 = cm.k1()
     step = 7 if tier == 'quick' else 2
     for t1 in k1[::step]:
